@@ -30,7 +30,7 @@ ASSUMPTIONS = ['island rows are compared with an independent 8-connected flood f
                'C04/C16/C17 contracts stay armed inside the fits']
 MIN_REACH = {'source_finder:SourceFinder.find_sources_in_image': 1, 'source_finder:SourceFinder.priorized_fit_islands': 1,
              'source_finder:SourceFinder._refit_islands': 1, 'source_finder:SourceFinder.result_to_components': 1}
-MIN_COUNTERS = {'priorized_inputs_off_image_or_on_blank': 3, 'rows_checked': 200, 'island_rows_checked': 10, 'reruns_compared': 10, 'priorized_runs': 3,
+MIN_COUNTERS = {'island_positions_checked': 10, 'priorized_inputs_off_image_or_on_blank': 3, 'rows_checked': 200, 'island_rows_checked': 10, 'reruns_compared': 10, 'priorized_runs': 3,
                 'fresh_process_reruns': 1, 'table_rows_checked': 20}
 BATCHES_PER_JOB = 4
 
@@ -243,6 +243,24 @@ def run(case):
         fits.PrimaryHDU(img, header=h).writeto(fn, overwrite=True)
         ctx = {'mode': {k: case[k] for k in case if k != 'field'}, 'field': {k: case['field'][k] for k in ('proj', 'shape', 'scale', 'noise_seed')},
                'n_injected': len(truth)}
+        if case.get('fresh'):
+            # history independence: this process first works on a DIFFERENT image of the same sky (other beam, other
+            # noise) with the same catalogue; the run that follows must still equal the one a fresh interpreter gives
+            import copy as _copy
+            dspec = _copy.deepcopy(case['field'])
+            dspec['beam'] = [dspec['beam'][0] * 1.5, dspec['beam'][1] * 1.3, dspec['beam'][2] + 20.0 - (180.0 if dspec['beam'][2] + 20.0 > 90 else 0.0)]
+            dspec['noise_seed'] = dspec['noise_seed'] + 1
+            dh, dz, dtruth, dimg = fields.build(dspec)
+            dfn = os.path.join(sc, 'decoy.fits')
+            fits.PrimaryHDU(dimg, header=dh).writeto(dfn, overwrite=True)
+            try:
+                if case['kind'] == 'blind':
+                    _blind(dfn, case, rms)
+                else:
+                    _prior(dfn, case, rms, _input_catalogue(case, fn, rms, truth, z))
+                o.count('decoy_runs_on_another_image_first')
+            except Exception:
+                o.count('decoy_run_raised')
         _arm(o)
         try:
             if case['kind'] == 'blind':
@@ -300,7 +318,7 @@ def run(case):
             o.see('flags', int(r['flags']))
         # ---- island rows
         if isles:
-            _check_islands(o, ctx, comps, isles, img, rms)
+            _check_islands(o, ctx, comps, isles, img, rms, z)
         # ---- reproducibility, same process
         if srcs2 is not None:
             c2, i2 = _rows(srcs2)
@@ -361,7 +379,15 @@ def _mech_exc(tb):
     return None
 
 
-def _check_islands(o, ctx, comps, isles, img, rms):
+def _mech_island_pos(r, z, pix):
+    from aegmon.refs import sphere
+    pra, pdec = z.index2sky(pix[0] - 1, pix[1] - 1)
+    if float(sphere.sep(r['ra'], r['dec'], float(pra), float(pdec))) < 1e-7:
+        return 'island-position-one-pixel-off'
+    return None
+
+
+def _check_islands(o, ctx, comps, isles, img, rms, z=None):
     """island rows vs component rows vs an independent flood fill of the image"""
     ncomp = {}
     for r in comps:
@@ -411,6 +437,18 @@ def _check_islands(o, ctx, comps, isles, img, rms):
             o.violate('island_peak_pixel', dict(w, oracle_peak=float(peak)))
         if [r['x_width'], r['y_width']] != [r1 - r0, c1 - c0]:
             o.violate('island_widths', dict(w, oracle=[r1 - r0, c1 - c0]))
+        # the island's position is the sky position of its peak pixel (independent WCS); judged when that pixel is unique
+        if z is not None and peak is not None:
+            at = [p for p in cand if float(np.float32(img[p])) == float(np.float32(peak))]
+            if len(at) == 1 and r.get('ra') is not None and np.isfinite(r['ra']) and np.isfinite(r['dec']):
+                from aegmon.refs import sphere
+                pra, pdec = z.index2sky(at[0][0], at[0][1])
+                d = float(sphere.sep(r['ra'], r['dec'], float(pra), float(pdec)))
+                o.count('island_positions_checked')
+                o.worst('island_position_vs_peak_pixel_deg', d)
+                if d > 1e-7:
+                    o.violate('island_position_is_not_its_peak_pixel', dict(w, peak_pixel=list(at[0]), peak_pixel_sky=[float(pra), float(pdec)],
+                                                                           offset_deg=d), _mech_island_pos(r, z, at[0]))
     for isl in ncomp:
         if isl not in seen:
             o.violate('components_without_island_row', dict(ctx, island=isl))
